@@ -173,6 +173,9 @@ pub fn run_c07(tier: &str) -> Report {
     let (npairs, v) = crate::checks::longlists::after_refusal(tier);
     rep.sink.extend(v);
     rep.set("refused_then_valid_call_pairs", json!(npairs));
+    let (ncalls2, v) = crate::checks::longlists::call_ladders("C07/after-many-calls", &["children", "parent"]);
+    rep.sink.extend(v);
+    rep.set("call_ladder_calls", json!(ncalls2));
     let (npairs, v) = crate::checks::longlists::collision_circuits(tier, "C07/after-call");
     rep.sink.extend(v);
     rep.set("collision_family_call_pairs", json!(npairs));
